@@ -79,7 +79,7 @@ def auth_harness(prop, tier, seed, cov, log):
     if r.returncode != 0:
         path = L.write_replay(prop, 'auth-harness', {'property': prop, 'broken': 'go/cmd/auth'}, [r.stderr[-3000:]])
         return [(path, ' no-failing-input-found')]
-    d = subprocess.run([L.DRIVER], input=r.stdout, capture_output=True, text=True)
+    d = subprocess.run([L.DRIVER], input='\n'.join(l for l in r.stdout.split('\n') if not l.startswith('AUTHROT')), capture_output=True, text=True)
     cov['auth_requests'] = n
     cov['auth_agree'] = d.stdout.count('A ok')
     cov['auth_admitted'] = r.stdout.count('entered=1')
@@ -88,6 +88,14 @@ def auth_harness(prop, tier, seed, cov, log):
         for k in m.group(1).split('/'): kinds[k] = kinds.get(k, 0) + 1
     cov['auth_token_kinds'] = kinds
     viol = []; seen = set(); known = L.load_known(prop)
+    # forged tokens presented from several goroutines while the server's secret is dropped and set again and again
+    m = re.search(r'AUTHROT attempts=(\d+) admitted=(\d+)', r.stdout)
+    if m:
+        cov['auth_attempts_while_the_secret_changes'] = int(m.group(1))
+        if int(m.group(2)) > 0:
+            path = L.write_replay(prop, 'admitted-while-the-secret-changes', {'property': prop, 'cause': 'admitted-while-the-secret-changes', 'seed': seed, 'tier': tier,
+                                  'replay': f'.cache/bin/auth -seed {seed} -n 10   (the AUTHROT line: a forged token was admitted {m.group(2)} times in {m.group(1)} attempts)'}, [m.group(0)])
+            viol.append((path, ''))
     for l in d.stdout.split('\n'):
         if not l.startswith('M '): continue
         cause = l.split()[3]
@@ -366,6 +374,8 @@ WIRE_PLANS = {
     # C01 / C14: the same for what a member's view is built from, and for custom messages at the protocol's limits
     'C01': {'order': (1, 8)},
     'C14': {'order': (1, 8), 'bigframe': (2, 10)},
+    # C13: a subscriber is told of every update, also the one made while it lags behind
+    'C13': {'order': (1, 8)},
     # C07: a session, and its frame worker, ends with its last member however quickly that happens
     'C07': {'churn': (4, 40)},
     # C10: concurrent registration of the same component type names
